@@ -8,7 +8,7 @@ Contract(P, "_distance", {"x1": "float", "x2": "float", "y1": "float", "y2": "fl
          result="float",
          raises={"ValueError": "metric == 1 and (%s)" % OUT},
          ensures=["same(result, spec_dist(x1, x2, y1, y2, metric))"],
-         props=("C06", "C14"), axioms=("sqrt", "pi"),
+         props=("C06",), axioms=("sqrt", "pi"),
          native={"opts": {"int_lo": 0, "int_hi": 2, "pool": [0.0, 1.0, 2.5, -3.0, 45.0, 90.0, -90.0, 180.0, 181.0, float("nan")]}})
 
 Contract(P, "_calc_direction", {"x1": "float", "x2": "float", "y1": "float", "y2": "float"},
